@@ -1,0 +1,15 @@
+//go:build !verif
+
+package server
+
+import (
+	"context"
+
+	"go.lsp.dev/protocol"
+)
+
+// verifYield is a scheduling point for the verification harness; without the build tag
+// "verif" it does nothing.
+func verifYield(context.Context, protocol.DocumentURI, uint64) func() { return verifNop }
+
+func verifNop() {}
